@@ -974,6 +974,17 @@ impl<'a> RW<'a> {
             } else {
                 // it must have been retried with every parent known and refused
                 let known_sometime = |k: &CellKey| live_keys.contains(k) || outs0.contains(k) || outs1.contains(k) || tried_outs.contains(&k.0) || p0.orphans.values().any(|x| x.hash == k.0);
+                // a retry resolves the inputs in order and stops at the first one that is not live: an
+                // input or dep spent by a pooled transaction (Dead) refuses the orphan for good even
+                // while another parent is still unknown
+                let spent0 = Self::pool_spent(p0);
+                let spent1 = Self::pool_spent(&p1);
+                if !o.inputs.iter().chain(o.deps.iter()).all(known_sometime)
+                    && o.inputs.iter().chain(o.deps.iter()).any(|k| spent0.contains_key(k) || spent1.contains_key(k))
+                {
+                    st.label("remote:orphan:left:refused-on-retry:cell-spent-by-a-pooled-tx-while-another-parent-is-unknown");
+                    continue;
+                }
                 if !o.inputs.iter().chain(o.deps.iter()).all(known_sometime) {
                     vfail!(
                         "orphan:vanished-while-a-parent-was-never-available",
